@@ -174,7 +174,14 @@ EXTRA_TREES = [
     [_t("L3"), _t("I1", [_t("L3")]), _t("L3"), _t("Q2", [_t("L3"), _t("L3")], [_t("L3")])],
 ]
 
-EXTRA_TOKENS = ["--c", "-- c", "{", "}", ";", "#pile", "#endpile", "_"]
+ALPHA_KW = ("add and always assert break but by case catch default define delay do else except export exquo extend "
+            "finally fix for fluid free from generate goto has if import in inline is isnt iterate let local macro mod "
+            "never not of or pretend quo ref rem repeat return rule select then throw to try where while with yield").split()
+SYM_KW = ("' ` & , ; $ # @ := : :* :: * ** . .. = == ==> => > >> >= < << <= <- ^ ^= ~ ~= + +- +-> +->* - -> ->* / /\\ \\ \\/ "
+          "[ [| { {| ( (| ] } ) | |] |} |) ||").split()
+SAMPLES = ["x", "ab", "x1", "0", "1", "2", "10", "1.5", '"s"']
+
+EXTRA_TOKENS = ["--c", "-- c", "{", "}", ";", "#pile", "#endpile", "_"] + ALPHA_KW + SYM_KW + SAMPLES
 
 
 def tla_str(s):
